@@ -58,7 +58,10 @@ SPEC = {
         "big.Int, time (every instant: TimeToUint64 saturates to 0 before the epoch and to MaxInt64 from 2^63 ns on), slices, arrays, maps, "
         "structs (named/optional/omitempty/embedded/inlined fields, object codes - registered or handed over by WithTypeSettings), pointers, interfaces; "
         "min/max length validation; strconv / hexutil text incl. alternative spellings; amd64 float-to-integer conversion of out-of-range numbers",
-        "NOT modelled: SerializableJSON/DeserializableJSON and validator callbacks, ArrayRules.MustOccur, inlined interfaces/pointers, "
+        "NOT modelled in Lean, but generated and judged by a Go-only stream of the harness (harness/c01b/goonly.go: independent reflect walker, oracles goonly-*): "
+        "SerializableJSON/DeserializableJSON types in every position, syntactic validators (accepting / rejecting, call counts), ArrayRules Min/Max/MustOccur on "
+        "interface slices and arrays, inlined pointers / interfaces",
+        "NOT modelled: optional/omitempty on inlined fields (counted by start-up probes: the encoder omits them, the decoder reports a missing entry), "
         "object codes on non-byte slices, non-UTF-8 strings, JSON numbers with fraction/exponent, time zones (a time is its instant)",
     ],
     "manifest": {
@@ -77,9 +80,10 @@ SPEC = {
                 "Go-only oracles encode-twice and MapDecode-vs-JSONDecode; "
                 "JsonExpressible/ValExpressible/WellTyped verdicts and canon are compared with an independent Go statement; the Go-only oracle "
                 "JSONDecode(JSONEncode(v)) = documented result (exact: nil-ness, float bits) "
-                "turns a broken tie into a failing input.",
+                "turns a broken tie into a failing input. A Go-only stream (1 200 cases per quick run) covers what the model leaves out: self-serialising JSON types, syntactic validators, "
+                "must-occur rules and inlined pointers/interfaces, judged by an independent reflect walker (round trip in both validation modes, call counts, rule verdicts).",
         "note": "Trusted: Lean kernel; model Hive/Model/SerixJson.lean (tie = differential execution); strconv float text (FloatCodec parameter, checked "
-                "by the Go oracle); encoding/json carrying the Json tree. No open finding (five fix: commits in map_encode.go / map_decode.go). Not modelled: self-serialising types, validators, MustOccur, inlined interfaces, non-UTF-8 strings.",
+                "by the Go oracle); encoding/json carrying the Json tree. No open finding (seven fix: commits in map_encode.go / map_decode.go / serix.go / utils.go). Not modelled in Lean (Go-only stream instead): self-serialising types, validators, MustOccur, inlined interfaces, non-UTF-8 strings.",
         "technique": "Lean 4 mutual structural induction over the schema type + differential correspondence on random schemas",
     },
     "assumptions": ["documents handed to the decoder are map[string]any trees (no duplicate member names) - proved for every document the "
